@@ -5,7 +5,7 @@ From Coq Require Import Reals List Lra Arith.
 From AhrsLib Require Import Base Rot.
 From AhrsModel Require Import C12_lists.
 From AhrsGen Require Import C12gen_R.
-From AhrsProps Require Import C12_math C12_gen C12_lists_thm C12_lists_R.
+From AhrsProps Require Import C12_math C12_gen C12_lists_thm C12_lists_R C12_lerp C12_lerp_gen.
 Import ListNotations.
 Open Scope R_scope.
 
@@ -81,6 +81,25 @@ Proof.
 Qed.
 Print Assumptions C12_slerp_I.
 
+(* ---- the LERP branch (|p.q| above the threshold) ------------------------------------------------------------------ *)
+(* the normalised chord point is within 1 - cos <= theta0^6/288 (an angle of about theta0^3/12) of the constant-speed
+   geodesic point arc(t) of the SAME weight, for every threshold in [0,1) *)
+Theorem C12_lerp_near_geodesic : forall a b c d w x y z thr t, unit4 a b c d -> unit4 w x y z -> 0 <= thr < 1 ->
+  thr < Rabs (qdot [a;b;c;d] [w;x;y;z]) < 1 -> 0 <= t <= 1 ->
+  exists r, C12_slerp_thr_R a b c d w x y z t thr = Val r /\
+            1 - (acos (Rabs (qdot [a;b;c;d] [w;x;y;z]))) ^ 6 / 288
+            <= qdot r (arc [a;b;c;d] (nearer [a;b;c;d] [w;x;y;z]) (Rabs (qdot [a;b;c;d] [w;x;y;z])) t) <= 1.
+Proof. intros a b c d w x y z thr t Hp Hq Ht HD H. exact (gen_lerp_near_geodesic a b c d w x y z thr Hp Hq Ht HD t H). Qed.
+Print Assumptions C12_lerp_near_geodesic.
+(* the numeric corollary for the shipped threshold (C12_lerp_default_bound) is stated in C12_instances.v *)
+(* and it advances monotonically: p.r(t) strictly decreases in t on [0,1] *)
+Theorem C12_lerp_monotone : forall a b c d w x y z thr t1 t2, unit4 a b c d -> unit4 w x y z -> 0 <= thr < 1 ->
+  thr < Rabs (qdot [a;b;c;d] [w;x;y;z]) < 1 -> 0 <= t1 -> t1 < t2 -> t2 <= 1 ->
+  exists r1 r2, C12_slerp_thr_R a b c d w x y z t1 thr = Val r1 /\ C12_slerp_thr_R a b c d w x y z t2 thr = Val r2 /\
+                qdot [a;b;c;d] r2 < qdot [a;b;c;d] r1.
+Proof. intros a b c d w x y z thr t1 t2 Hp Hq Ht HD H0 H12 H1. exact (gen_lerp_monotone a b c d w x y z thr Hp Hq Ht HD t1 t2 H0 H12 H1). Qed.
+Print Assumptions C12_lerp_monotone.
+
 Example C12_slerp_nonvacuous :
   unit4 1 0 0 0 /\ unit4 (3/5) (4/5) 0 0 /\ Rabs (qdot [1;0;0;0] [3/5;4/5;0;0]) <= 1999/2000 /\
   unit4 (-3/5) 0 (4/5) 0 /\ qdot [1;0;0;0] [-3/5;0;4/5;0] < 0.
@@ -142,6 +161,14 @@ Theorem C12_slerp_nan_spec : forall (rows out : list (option quat)), slerp_nanR 
 Proof. intros rows out H. exact (slerp_nan_spec quat negq jumpq interpq negq_invol rows out H). Qed.
 Print Assumptions C12_slerp_nan_spec.
 
+(* the weights, for a gap of ANY length L: exactly L rows are written and the (k+1)-th is slerp at weight (k+1)/(L+1), strictly
+   between 0 and 1 (np.linspace(0, 1, L+2)[1:-1]); the code is swept over every L = 1..260 (..1000) against this by the oracle gap_sweep *)
+Theorem C12_fill_weights : forall (a b : quat) (L k : nat), (k < L)%nat ->
+  length (interpolants interpq a b L) = L /\ nth k (interpolants interpq a b L) None = Some (interpq a b (S k) (S L)) /\
+  0 < INR (S k) / INR (S L) < 1.
+Proof. intros a b L k H. exact (fill_weights a b L k H). Qed.
+Print Assumptions C12_fill_weights.
+
 Theorem C12_slerp_nan_defined : forall (rows : list (option quat)) v0 v1,
   nth 0 rows None = Some v0 -> nth (pred (length rows)) rows None = Some v1 -> exists out, slerp_nanR rows = Some out.
 Proof.
@@ -163,6 +190,8 @@ Theorem C12_fill_on_geodesic : forall a b k n, unitq4 a -> unitq4 b ->
    qdot (ql a) (ql (interpq a b k n)) = cos (acos (Rabs (qdot (ql a) (ql b))) * (INR k / INR n))).
 Proof. intros a b k n Ha Hb. split; [exact (interpq_unit a b k n Ha Hb)|exact (interpq_geodesic a b k n Ha Hb)]. Qed.
 Print Assumptions C12_fill_on_geodesic.
+
+(* the regenerated fixed-N instances of the in-place list code are stated in C12_instances.v (compiled in parallel) *)
 
 Example C12_lists_nonvacuous :
   get_nan_intervals [false; true; false; true; true; true; false; false; true; true] = [(1, 1); (3, 5); (8, 9)]%nat /\
